@@ -32,8 +32,8 @@ pub fn leaves() -> Vec<Dyn> {
     ]
 }
 
-pub const ARITY1: [&str; 8] = ["Some", "Seq1", "Newtype", "MapStr1", "MapInt", "MapBool", "MapKey", "VarNewtype"];
-pub const ARITY2: [&str; 7] = ["Seq2", "Tuple2", "TupleStruct2", "MapStr2", "Struct2", "VarTuple", "VarStruct"];
+pub const ARITY1: [&str; 9] = ["Some", "Seq1", "Newtype", "MapStr1", "MapInt", "MapBool", "MapKey", "VarNewtype", "VarStruct1"];
+pub const ARITY2: [&str; 8] = ["Seq2", "Tuple2", "TupleStruct2", "MapStr2", "Struct2", "VarTuple", "VarStruct", "MapKeyValue"];
 
 pub fn build1(shape: usize, x: Dyn) -> Dyn {
     match shape {
@@ -44,6 +44,7 @@ pub fn build1(shape: usize, x: Dyn) -> Dyn {
         4 => Dyn::Map(vec![(Dyn::I64(1), x)]),
         5 => Dyn::Map(vec![(Dyn::Bool(true), x)]),
         6 => Dyn::Map(vec![(x, Dyn::I64(4))]),
+        8 => Dyn::Variant { enum_name: "E".into(), index: 4, variant: "S1v".into(), val: VarVal::Struct(vec![("a".into(), x)]) },
         _ => Dyn::Variant { enum_name: "E".into(), index: 1, variant: "Nv".into(), val: VarVal::Newtype(Box::new(x)) },
     }
 }
@@ -56,6 +57,7 @@ pub fn build2(shape: usize, x: Dyn, y: Dyn) -> Dyn {
         3 => Dyn::Map(vec![(Dyn::s("k"), x), (Dyn::s("l"), y)]),
         4 => Dyn::Struct("St".into(), vec![("f".into(), x), ("g".into(), y)]),
         5 => Dyn::Variant { enum_name: "E".into(), index: 2, variant: "Tv".into(), val: VarVal::Tuple(vec![x, y]) },
+        7 => Dyn::Map(vec![(x, y)]),
         _ => Dyn::Variant { enum_name: "E".into(), index: 3, variant: "Sv".into(), val: VarVal::Struct(vec![("f".into(), x), ("g".into(), y)]) },
     }
 }
@@ -89,6 +91,64 @@ pub fn values_by_size(max: usize) -> Vec<Vec<Dyn>> {
         by[n] = v;
     }
     by
+}
+
+/// the same shape with its first scalar leaf changed (a second, different key of the same type)
+fn vary(v: &Dyn) -> Option<Dyn> {
+    fn first_some(items: &[Dyn]) -> Option<Vec<Dyn>> {
+        for (i, x) in items.iter().enumerate() {
+            if let Some(y) = vary(x) {
+                let mut out = items.to_vec();
+                out[i] = y;
+                return Some(out);
+            }
+        }
+        None
+    }
+    Some(match v {
+        Dyn::I64(n) => Dyn::I64(n + 1),
+        Dyn::Bool(b) => Dyn::Bool(!b),
+        Dyn::Str(s) => Dyn::s(&format!("{}z", s)),
+        Dyn::Char(_) => Dyn::Char('d'),
+        Dyn::Some(x) => Dyn::Some(Box::new(vary(x)?)),
+        Dyn::NewtypeStruct(n, x) => Dyn::NewtypeStruct(n.clone(), Box::new(vary(x)?)),
+        Dyn::Seq(items) => Dyn::Seq(first_some(items)?),
+        Dyn::Tuple(items) => Dyn::Tuple(first_some(items)?),
+        Dyn::TupleStruct(n, items) => Dyn::TupleStruct(n.clone(), first_some(items)?),
+        Dyn::Map(es) => {
+            let mut out = es.clone();
+            for (i, (k, x)) in es.iter().enumerate() {
+                if let Some(k2) = vary(k) {
+                    out[i].0 = k2;
+                    return Some(Dyn::Map(out));
+                }
+                if let Some(x2) = vary(x) {
+                    out[i].1 = x2;
+                    return Some(Dyn::Map(out));
+                }
+            }
+            return None;
+        }
+        Dyn::Struct(n, fs) => {
+            let vals: Vec<Dyn> = fs.iter().map(|(_, x)| x.clone()).collect();
+            let vals = first_some(&vals)?;
+            Dyn::Struct(n.clone(), fs.iter().map(|(k, _)| k.clone()).zip(vals).collect())
+        }
+        Dyn::Variant { enum_name, index, variant, val } => {
+            let val = match val {
+                VarVal::Unit => return None,
+                VarVal::Newtype(x) => VarVal::Newtype(Box::new(vary(x)?)),
+                VarVal::Tuple(items) => VarVal::Tuple(first_some(items)?),
+                VarVal::Struct(fs) => {
+                    let vals: Vec<Dyn> = fs.iter().map(|(_, x)| x.clone()).collect();
+                    let vals = first_some(&vals)?;
+                    VarVal::Struct(fs.iter().map(|(k, _)| k.clone()).zip(vals).collect())
+                }
+            };
+            Dyn::Variant { enum_name: enum_name.clone(), index: *index, variant: variant.clone(), val }
+        }
+        _ => return None,
+    })
 }
 
 pub struct C13;
@@ -264,10 +324,13 @@ pub fn run(ctx: &Ctx) -> i32 {
     for n in 1..=max {
         sizes.push(by[n].len());
         let list = &by[n];
-        let total = list.len() as u64 * opts.len() as u64;
+        // quick: the largest level under the 64 flag vectors only (indent_step 3 is on the smaller levels, in the
+        // composite-key entry pass and in the sibling pass)
+        let lopts: Vec<SerOpts> = if ctx.tier == Tier::Quick && n == max { opts.iter().filter(|o| o.indent == 0).cloned().collect() } else { opts.clone() };
+        let total = list.len() as u64 * lopts.len() as u64;
         let a = run_indexed(&p, total, |i| {
-            let o = opts[(i % opts.len() as u64) as usize];
-            Some(Case { val: list[(i / opts.len() as u64) as usize].clone(), opts: o })
+            let o = lopts[(i % lopts.len() as u64) as usize];
+            Some(Case { val: list[(i / lopts.len() as u64) as usize].clone(), opts: o })
         });
         acc = acc.merge(a);
     }
@@ -279,10 +342,18 @@ pub fn run(ctx: &Ctx) -> i32 {
         }
     }
     extra.push(SerOpts { custom_anchor: true, ..SerOpts::default() });
-    let small: Vec<&Dyn> = by.iter().take(4).flatten().collect();
+    let small: Vec<&Dyn> = by.iter().take(ctx.tier.pick(4, 5)).flatten().collect();
     let total = small.len() as u64 * extra.len() as u64;
     let a = run_indexed(&p, total, |i| Some(Case { val: small[(i / extra.len() as u64) as usize].clone(), opts: extra[(i % extra.len() as u64) as usize] }));
     acc = acc.merge(a);
+    {
+        // an indentation step of 1 on everything up to 4 nodes
+        let o1 = [SerOpts { indent: 1, ..SerOpts::default() }, SerOpts { indent: 1, compact: true, ..SerOpts::default() }];
+        let upto4: Vec<&Dyn> = by.iter().take(5).flatten().collect();
+        let total = upto4.len() as u64 * 2;
+        let a = run_indexed(&p, total, |i| Some(Case { val: upto4[(i / 2) as usize].clone(), opts: o1[(i % 2) as usize] }));
+        acc = acc.merge(a);
+    }
     // sibling pass: layout state must not leak from one child into the next. Every two-child parent shape x every
     // first child of up to 3 nodes x every second child of up to 2 (thorough 3) nodes, under a few option vectors
     {
@@ -304,6 +375,40 @@ pub fn run(ctx: &Ctx) -> i32 {
             Some(Case { val: build2(shape, x.clone(), y.clone()), opts: o })
         });
         acc.notes.insert("sibling_pass".into(), json!({"first_child_max_nodes": 3, "second_child_max_nodes": ctx.tier.pick(2, 3), "parents": ARITY2, "option_vectors": sopts.len(), "cases": a.evaluations}));
+        acc = acc.merge(a);
+    }
+    // composite-key entry pass: a mapping entry whose key is any value of up to 2 nodes and whose value is any value
+    // of up to 3 nodes, at the root, as a sequence item and as a mapping value, under the layout-relevant options
+    {
+        let keys: Vec<&Dyn> = by.iter().take(3).flatten().collect();
+        let vals: Vec<&Dyn> = by.iter().take(4).flatten().collect();
+        let mut kopts = vec![SerOpts::default(), SerOpts { compact: true, ..SerOpts::default() }, SerOpts { indent: 4, ..SerOpts::default() }];
+        if ctx.tier == Tier::Thorough {
+            kopts.extend([SerOpts { indent: 3, ..SerOpts::default() }, SerOpts { indent: 1, ..SerOpts::default() }, SerOpts { indent: 8, compact: true, ..SerOpts::default() }, SerOpts { no_empty_braces: true, ..SerOpts::default() }, SerOpts::from_bits(1)]);
+        }
+        let (nk, nv, no) = (keys.len() as u64, vals.len() as u64, kopts.len() as u64);
+        const CONTEXTS: u64 = 4;
+        let total = CONTEXTS * nk * nv * no;
+        let a = run_indexed(&p, total, |i| {
+            let o = kopts[(i % no) as usize];
+            let r = i / no;
+            let y = vals[(r % nv) as usize];
+            let r = r / nv;
+            let x = keys[(r % nk) as usize];
+            let entry = Dyn::Map(vec![(x.clone(), y.clone())]);
+            let val = match r / nk {
+                0 => entry,
+                1 => Dyn::Seq(vec![entry.clone(), entry]),
+                2 => Dyn::Map(vec![(Dyn::s("k"), entry)]),
+                // second entry of a mapping that is a sequence item
+                _ => match vary(x) {
+                    Some(x0) => Dyn::Seq(vec![Dyn::Map(vec![(x0, y.clone()), (x.clone(), y.clone())])]),
+                    None => return None,
+                },
+            };
+            Some(Case { val, opts: o })
+        });
+        acc.notes.insert("composite_key_entry_pass".into(), json!({"key_max_nodes": 2, "value_max_nodes": 3, "contexts": ["root", "sequence item (twice)", "mapping value", "second entry of a mapping that is a sequence item"], "option_vectors": no, "cases": a.evaluations}));
         acc = acc.merge(a);
     }
     acc.samples.truncate(0);
